@@ -1505,7 +1505,10 @@ func runSetEqualSymmetric(rr *RuleRun) {
 			root := rootObj(info, se.X)
 			switch se.Sel.Name {
 			case "Length":
-				lenOf[root] = true
+				// counts only as a comparison of the two sizes when it stands in an == / != comparison
+				if be, ok := c.Parent(call).(*ast.BinaryExpr); ok && (be.Op == token.NEQ || be.Op == token.EQL) {
+					lenOf[root] = true
+				}
 			case "Has":
 				hasOn[root] = true
 			case "SymmetricDifference":
@@ -4643,15 +4646,15 @@ func mentionsObj(info *types.Info, e ast.Node, o types.Object) bool {
 
 func init() {
 	register(&Rule{
-		ID: "C08.error-not-dropped", Prop: "C08", Also: []string{"C06", "C09", "C11", "C18", "C10"}, Floor: 40, Controls: 0,
-		Doc: "in packages convert, gocty, function and function/stdlib an error stored in a variable is read (tested, returned, wrapped) on every path before the variable is assigned again or the function returns: an error that is re-wrapped into its variable and then not returned, or assigned to a shadowing variable inside a callback, turns a failure into a silent wrong result",
+		ID: "C08.error-not-dropped", Prop: "C08", Also: []string{"C06", "C09", "C11", "C18", "C10", "C15", "C16"}, Floor: 40, Controls: 0,
+		Doc: "in packages cty, convert, gocty, function, function/stdlib, json and msgpack an error stored in a variable is read (tested, returned, wrapped) on every path before the variable is assigned again or the function returns: an error that is re-wrapped into its variable and then not returned, or assigned to a shadowing variable inside a callback, turns a failure into a silent wrong result",
 		Run: runErrorNotDropped,
 	})
 }
 
 func runErrorNotDropped(rr *RuleRun) {
 	c := rr.Ctx
-	eachFuncBody(c, []string{"cty/convert", "cty/gocty", "cty/function", "cty/function/stdlib"}, func(pkg string, fd *ast.FuncDecl, body *ast.BlockStmt) {
+	eachFuncBody(c, []string{"cty/convert", "cty/gocty", "cty/function", "cty/function/stdlib", "cty/json", "cty/msgpack", "cty"}, func(pkg string, fd *ast.FuncDecl, body *ast.BlockStmt) {
 		info := c.Info(pkg)
 		r := declRef{pkg, fd}
 		namedErr := map[types.Object]bool{}
@@ -5071,4 +5074,212 @@ func runShadowedCase(rr *RuleRun) {
 			return true
 		})
 	})
+}
+
+// ---------------------------------------------------------------------------
+// C17.error-branch-exits
+
+func init() {
+	register(&Rule{
+		ID: "C17.error-branch-exits", Prop: "C17", Also: []string{"C15", "C16", "C08", "C11", "C18"}, Floor: 100, Controls: 1,
+		Doc: "the branch taken for a non-nil error ('if err != nil { … }') does not simply run off its end on some path: on every path through it the function exits (return, panic, continue, break, goto), or the error is passed on (assigned to another variable, appended, handed to a call) — an error branch that falls through on one of its paths continues as if the failed step had succeeded",
+		Run: runErrorBranchExits,
+	})
+}
+
+func runErrorBranchExits(rr *RuleRun) {
+	c := rr.Ctx
+	eachFuncBody(c, allPkgs, func(pkg string, fd *ast.FuncDecl, body *ast.BlockStmt) {
+		info := c.Info(pkg)
+		inspectNoLit(body, func(n ast.Node) bool {
+			is, ok := n.(*ast.IfStmt)
+			if !ok {
+				return true
+			}
+			be, ok := ast.Unparen(is.Cond).(*ast.BinaryExpr)
+			if !ok || be.Op != token.NEQ || !isNilIdent(info, be.Y) {
+				return true
+			}
+			eo := objOf(info, be.X)
+			if eo == nil || !isErrorType(eo.Type()) {
+				return true
+			}
+			key := fmt.Sprintf("%s.%s/if %s != nil@%s", pkg, declName(fd), eo.Name(), c.PosStr(is.Pos()))
+			// the error is passed on somewhere in the branch?
+			passed := false
+			inspectNoLit(is.Body, func(m ast.Node) bool {
+				switch x := m.(type) {
+				case *ast.AssignStmt:
+					// stored elsewhere, or re-wrapped into itself (whether the re-wrapped error is then read is
+					// decided by the unread-error rules)
+					for _, r := range x.Rhs {
+						if _, inspect := ast.Unparen(r).(*ast.TypeAssertExpr); inspect {
+							continue // looking at the error's dynamic type is not passing it on
+						}
+						if mentionsObj(info, r, eo) {
+							passed = true
+						}
+					}
+				case *ast.CallExpr:
+					if _, isStmt := c.Parent(x).(*ast.ExprStmt); isStmt {
+						for _, a := range x.Args {
+							if mentionsObj(info, a, eo) {
+								passed = true
+							}
+						}
+					}
+				}
+				return true
+			})
+			if passed {
+				rr.OKTrivial(key, is.Pos(), "the error is passed on inside the branch")
+				return true
+			}
+			if blockFallsThrough(info, is.Body.List) {
+				rr.Violation(key, is.Pos(), fmt.Sprintf("the branch for a non-nil %s can run off its end on some path without exiting and without passing the error on: the function then continues as if the failed step had succeeded (malformed output, a zero value used as a result)", eo.Name()))
+			} else {
+				rr.OKTrivial(key, is.Pos(), "every path through the error branch exits")
+			}
+			return true
+		})
+	})
+}
+
+// blockFallsThrough: some path through the statement list reaches its end (conservative structural check).
+func blockFallsThrough(info *types.Info, list []ast.Stmt) bool {
+	if len(list) == 0 {
+		return true
+	}
+	return stmtFallsThrough(info, list[len(list)-1])
+}
+
+func stmtFallsThrough(info *types.Info, s ast.Stmt) bool {
+	switch x := s.(type) {
+	case *ast.ReturnStmt:
+		return false
+	case *ast.BranchStmt:
+		return false
+	case *ast.ExprStmt:
+		if call, ok := x.X.(*ast.CallExpr); ok && isBuiltin(info, call, "panic") {
+			return false
+		}
+		return true
+	case *ast.BlockStmt:
+		return blockFallsThrough(info, x.List)
+	case *ast.IfStmt:
+		if x.Else == nil {
+			return true
+		}
+		if blockFallsThrough(info, x.Body.List) {
+			return true
+		}
+		return stmtFallsThrough(info, x.Else)
+	case *ast.SwitchStmt:
+		hasDefault := false
+		for _, cl := range x.Body.List {
+			cc := cl.(*ast.CaseClause)
+			if cc.List == nil {
+				hasDefault = true
+			}
+			if blockFallsThrough(info, cc.Body) {
+				return true
+			}
+		}
+		return !hasDefault
+	}
+	return true
+}
+
+
+// ---------------------------------------------------------------------------
+// C19.unmark-transformer-unmarks, C12.jsonencode-prefix-constant
+
+func init() {
+	register(&Rule{
+		ID: "C19.unmark-transformer-unmarks", Prop: "C19", Also: []string{"C04"}, Floor: 1, Controls: 0,
+		Doc: "unmarkTransformer.Enter (behind UnmarkDeep / UnmarkDeepWithPaths) hands the traversal the unmarked value on every path: it never returns its argument as it came in (a shortcut for null or unknown members leaves their marks in place and unreported, so re-applying the reported marks does not restore the original)",
+		Run: runUnmarkTransformerUnmarks,
+	})
+	register(&Rule{
+		ID: "C12.jsonencode-prefix-constant", Prop: "C12", Floor: 1, Controls: 0,
+		Doc: "the string prefix that JSONEncodeFunc promises for an unknown result is a constant delimiter (the opening quote, brace or bracket): it is not computed from the argument's own known prefix, which JSON encoding would escape (a quote, a backslash, <, >, & or a control character in it makes the promised prefix wrong)",
+		Run: runJSONEncodePrefixConstant,
+	})
+}
+
+func runUnmarkTransformerUnmarks(rr *RuleRun) {
+	c := rr.Ctx
+	info := c.Info("cty")
+	fd := rr.MustDecl("cty", "unmarkTransformer.Enter")
+	if fd == nil {
+		return
+	}
+	var v types.Object
+	for i := 0; ; i++ {
+		id := paramIdent(fd, i)
+		if id == nil {
+			break
+		}
+		if isCtyValue(info.TypeOf(id)) {
+			v = info.Defs[id]
+		}
+	}
+	if v == nil {
+		rr.Broken("stale anchor: unmarkTransformer.Enter has no cty.Value parameter")
+		return
+	}
+	cf := c.CondFacts(fd.Body, info, nil)
+	g := c.CFG(fd.Body, info)
+	n := 0
+	for _, ret := range g.Returns() {
+		if len(ret.Results) != 2 {
+			continue
+		}
+		n++
+		key := "cty.unmarkTransformer.Enter/return " + trunc(exprStr(ret.Results[0]), 30)
+		if objOf(info, ret.Results[0]) != v {
+			rr.OK(key, ret.Pos(), "returns a value derived by unmarking")
+			continue
+		}
+		unmarkedHere := cf.HoldsAt(ret, func(cond ast.Expr, truth bool) bool {
+			return !truth && methodCond(info, cond, v, "IsMarked", "ContainsMarked")
+		})
+		if unmarkedHere {
+			rr.OK(key, ret.Pos(), "the argument is returned as it came only where it was tested unmarked")
+		} else {
+			rr.Violation(key, ret.Pos(), "the argument is handed back to the traversal as it came in, on a path that has not established that it carries no marks: a marked member taking this path keeps its marks and none are reported for it")
+		}
+	}
+	if n == 0 {
+		rr.Broken("stale anchor: unmarkTransformer.Enter has no (Value, error) return")
+	}
+}
+
+func runJSONEncodePrefixConstant(rr *RuleRun) {
+	c := rr.Ctx
+	pkg := "cty/function/stdlib"
+	info := c.Info(pkg)
+	n := 0
+	for _, s := range findSpecs(c, pkg) {
+		if s.Name != "JSONEncodeFunc" {
+			continue
+		}
+		ast.Inspect(s.Lit, func(nd ast.Node) bool {
+			call, ok := nd.(*ast.CallExpr)
+			if !ok || !isCall(info, call, "cty.RefinementBuilder.StringPrefixFull", "cty.RefinementBuilder.StringPrefix") || len(call.Args) != 1 {
+				return true
+			}
+			n++
+			key := fmt.Sprintf("%s.JSONEncodeFunc/%s", pkg, trunc(exprStr(call), 50))
+			if tv, ok := info.Types[call.Args[0]]; ok && tv.Value != nil {
+				rr.OK(key, call.Pos(), "a constant prefix")
+			} else {
+				rr.Violation(key, call.Pos(), fmt.Sprintf("the promised prefix %s is computed at run time: the known prefix of the argument is not what its JSON encoding starts with once a character in it needs escaping, so the refined result excludes the real result", exprStr(call.Args[0])))
+			}
+			return true
+		})
+	}
+	if n == 0 {
+		rr.Info(pkg+".JSONEncodeFunc/prefix", token.NoPos, "JSONEncodeFunc promises no string prefix")
+	}
 }
